@@ -74,6 +74,12 @@ func (s *CollapsingHighestDenseStore) extendRange(newMinIndex, newMaxIndex int) 
 	if s.IsEmpty() {
 		initialLength := s.getNewLength(newMinIndex, newMaxIndex)
 		s.bins = append(s.bins, make([]float64, initialLength)...)
+		if newMaxIndex-newMinIndex+1 > len(s.bins) {
+			// The range is wider than what the store can hold: only its lowest part is kept,
+			// higher indexes are collapsed into the highest kept bin.
+			newMaxIndex = newMinIndex + len(s.bins) - 1
+			s.isCollapsed = true
+		}
 		s.offset = newMinIndex
 		s.minIndex = newMinIndex
 		s.maxIndex = newMaxIndex
